@@ -879,6 +879,9 @@ func (r *run) compare(n *Node, h uint32, when string) {
 		} else if when == "after-sync-lockstep" && r.syncPoint > 0 && r.ledgerVMStateOfBlockUpTo(h, r.syncPoint) {
 			// finding F-led-1 (see ledgerVMStateOfBlockUpTo)
 			sig += "+ledger-vmstate-of-unexecuted-tx"
+		} else if when == "after-sync-lockstep" && r.syncPoint > 0 && r.ledgerTxFromBlockUpTo(h, r.syncPoint) {
+			// finding F-led-2 (see ledgerTxFromBlockUpTo)
+			sig += "+ledger-transaction-from-block-of-unexecuted-block"
 		}
 		r.violate(sim.Violatef("divergence", sig, "%s", msg))
 	}
